@@ -35,6 +35,7 @@ RULE_DOC = {
     'E2': 'Atomic{U64,Usize}::{load,store,fetch_add,fetch_sub} on a field -> plain read / write / read-modify-write (single-threaded semantics)',
     'E3': 'parking_lot guard variables removed, guard name replaced by the field; &self -> &mut self where the body writes (one critical section executed atomically)',
     'E4': 'f64 operator application at listed sites -> opaque uninterpreted helper (floats never panic; no claimed obligation talks about float results)',
+    'M2': 'trait-impl method extracted as an inherent method (receiver and body unchanged; `Self::Item` spelled out): Verus cannot attach requires to a trait impl',
     'M1': 'method whose body never mentions self extracted as an associated fn of a stand-in struct',
     'V1': 'visibility normalised: private struct fields made `pub` (Verus forbids private fields in public contracts; visibility has no run-time meaning)',
     'X1': 'site-specific exact substitution (listed verbatim in the evidence diff)',
